@@ -489,6 +489,28 @@ theorem dedup_spec (acc us : List Str) (ha : acc.Nodup) :
       · rintro (h | h | h); exact Or.inl (Or.inl h); exact Or.inl (Or.inr h); exact Or.inr h
 
 
+theorem pairBytes_b16Digits (bytes : List Nat) : pairBytes (b16Digits bytes) = bytes := by
+  induction bytes with
+  | nil => rfl
+  | cons b t ih =>
+    simp only [b16Digits, List.flatMap_cons, List.cons_append, List.nil_append, pairBytes] at ih ⊢
+    rw [ih]
+    congr 1
+    exact Nat.div_add_mod' b 16
+
+theorem b16Digits_length_even (bytes : List Nat) : (b16Digits bytes).length % 2 = 0 := by
+  rw [b16Digits_length]; omega
+
+/-- the 40 hex digits of a 160-bit number are the hex digits of its 20 bytes -/
+theorem toDigits16_eq_b16Digits (n : Nat) (h : n < 2 ^ 160) :
+    toDigits 16 40 n = b16Digits (toDigits 256 20 n) := by
+  have hlen : (b16Digits (toDigits 256 20 n)).length = 40 := by
+    rw [b16Digits_length, toDigits_length]
+  have hlt := b16Digits_lt _ (toDigits_lt 256 20 n (by decide))
+  have := toDigits_ofDigits 16 _ hlt
+  rw [hlen, b16Digits_value, ofDigits_toDigits 256 20 n (by simpa using h)] at this
+  exact this
+
 theorem plusForSpace_idem (s : Str) : plusForSpace (plusForSpace s) = plusForSpace s := by
   unfold plusForSpace
   rw [List.map_map]
